@@ -178,3 +178,6 @@ func (w *World) ExpireStalledRead() bool {
 	}
 	return false
 }
+
+// FragmentLocked is Fragment for callers which hold the world lock.
+func (c *Conn) FragmentLocked(chunks []int) { c.chunks = append(c.chunks, chunks...) }
